@@ -39,8 +39,8 @@ type FnSpec struct {
 	Safe       []string // property labels under which implicit obligations are checked
 	Unroll     map[int]int
 	AtCall     map[string][]*Clause // call-site assertions: callee name -> clauses evaluated just before the call
-	Thorough   bool // checked only in the thorough tier
-	Bounded    int  // >0: bounded stand-in (lemma with callees inlined, loops unrolled to this bound)
+	Thorough   bool                 // checked only in the thorough tier
+	Bounded    int                  // >0: bounded stand-in (lemma with callees inlined, loops unrolled to this bound)
 	PanicsIff  *Clause
 	Fresh      []string // results that are freshly allocated
 	Pos        string
